@@ -424,7 +424,7 @@ class Exec:
                 return z3.Extract(hi, hi - 7, v)                   # byte `iv` of a `[u8; N]` modelled as a big-endian bit-vector
             if iv is not None and isinstance(v, Agg) and v.kind == 'array' and iv < len(v.fields):
                 return v.fields[iv]
-            return Sym(f'{vname(v)}[?]', '')
+            return Sym(f'{vname(v)}[{iv}]' if iv is not None else f'{vname(v)}[?]', '')
         if k == 'subslice':
             m = re.fullmatch(r'(\d+)(\.\.|:)(-?)(\d+)', pr[1].replace(' ', ''))
             if isinstance(v, Bytes):
@@ -1120,6 +1120,19 @@ class Exec:
                 if M.type_head(tr) == trait and M.type_head(st) == th and f.name.endswith('<impl>::' + meth):
                     cands.append(f)
             cands = _dedupe(cands)
+            if not cands and trait in self.local_traits() and not (len(th or '') <= 2):
+                # the impl is written for a type alias of the receiver (`impl Trait for Alias`): a trait of this crate with a single
+                # implementation of that method leaves no choice
+                alt = []
+                for f in prog.by_last.get(meth, []):
+                    if f.impl_span is None or not f.blocks or not f.name.endswith('<impl>::' + meth):
+                        continue
+                    tr, st = prog.impl_header(f.impl_span)
+                    if tr is not None and M.type_head(tr) == trait:
+                        alt.append(f)
+                alt = _dedupe(alt)
+                if len(alt) == 1:
+                    return alt[0]
             hint = M.strip_generics(selfty)
             mods = [x for x in hint.split('::')[:-1] if x[:1].islower()]
             if mods:
@@ -1248,7 +1261,24 @@ class Exec:
             self._resolve_cache[key] = res
         return self._resolve_cache[key]
 
+    def local_traits(self):
+        if getattr(self, '_local_traits', None) is None:
+            import glob
+            names = set()
+            root = getattr(self.prog, 'src_root', None)
+            for rel in {f.body_span.split(':')[0] for fs in self.prog.fns.values() for f in fs if getattr(f, 'body_span', None)}:
+                names.update(re.findall(r'\btrait\s+(\w+)', '\n'.join(self.prog.src_lines(rel))))
+            self._local_traits = names
+        return self._local_traits
+
     def opaque_call(self, p, call, k, effect=None):
+        m_ = re.match(r'^<(\w+) as (?:\w+::)*(\w+)(?:<.*>)?>::\w+$', call.short or '')
+        if m_ and len(m_.group(1)) <= 2 and m_.group(2) in self.local_traits():
+            # a method of a trait of this crate called on a generic parameter: the body that runs is decided by the instantiation, which
+            # this executor does not substitute - whatever is concluded from its opaque result is not a statement about the code
+            if not hasattr(self, 'unresolved_local'):
+                self.unresolved_local = set()
+            self.unresolved_local.add(call.short)
         name = self.result_name(p, call)
         ret = self.fresh(name, call.retty)
         if isinstance(ret, Sym):
